@@ -48,7 +48,8 @@ class P(Prop):
         if plant and rng.random() < 0.2:
             m = vgen.Module(rng, adversarial=0.6, plant=plant)
         else:
-            m = vgen.Module(rng, blackboxes=vgen.FLOPS if rng.random() < 0.4 else (), adversarial=rng.choice([0, 0, 0.25]))
+            m = vgen.Module(rng, blackboxes=rng.choice([vgen.FLOPS, vgen.FLOPS_ALT]) if rng.random() < 0.4 else (),
+                            adversarial=rng.choice([0, 0, 0.25]))
         text = m.render(comments=True)
         mut = None
         r = rng.random()
@@ -73,9 +74,10 @@ class P(Prop):
         for i in range(n):
             m, text, mut = self.gen_case()
             seed = self.rng.randint(0, 5)
-            bbj = [[b.name, sorted(b.input_set), sorted(b.output_set)] for b in vgen.FLOPS]
+            flops = list(m.bbs) or list(vgen.FLOPS)
+            bbj = [[b.name, sorted(b.input_set), sorted(b.output_set)] for b in flops]
             with ordered(seed), synthetic_names() as made:
-                o, r = call(cg.io.verilog_to_circuit, text, m.name, False, list(vgen.FLOPS))
+                o, r = call(cg.io.verilog_to_circuit, text, m.name, False, flops)
             self.made = set(made)
             mm = drv.ask({"op": "verilog_read", "text": text, "name": m.name, "bbs": bbj, "seed": seed})
             self.corr_cases += 1
@@ -90,7 +92,7 @@ class P(Prop):
     def oracle(self, m, text, mut):
         case = {"text": text, "name": m.name}
         with synthetic_names() as made:
-            o, c = call(cg.io.verilog_to_circuit, text, m.name, False, list(vgen.FLOPS))
+            o, c = call(cg.io.verilog_to_circuit, text, m.name, False, list(m.bbs) or list(vgen.FLOPS))
         self.made = set(made)
         self.search_cases += 1
         if mut:
